@@ -20,6 +20,17 @@ if rnd == "7":
              "an unwrap on a value that can be absent, a swallowed error), (d) the order of two operations that do not commute. The breakage must be a clear "
              "violation of the property as stated, observable through the public API, and must NOT be one of: swapping base/tool in a constructor, making "
              "update_range use stale limits, capping the number of IK answers, lowering a cancellation flag, reading J6 from the resolved previous vector.\n\n")
+if rnd == "8":
+    WHERE = {"C12": "src/path_plan/cartesian.rs (the functions plan, probe_strategy, step_adaptive_linear_transition: strategy selection, onboarding by RRT, the stepping "
+                    "and subdivision logic, flags of the waypoints, what ends up in the returned trace)",
+             "C13": "src/path_plan/rrt_to.rs (dual_rrt_connect, extend, connect, get_until_root: tree growth, the swap of the two trees, path assembly, the stop test)",
+             "C19": "src/parameters_from_file.rs (from_yaml_file / from_yaml: which keys are read, units, defaults, array lengths, sign flags, dof) or to_yaml in src/parameters.rs",
+             "C20": "src/urdf.rs (from_urdf, collect_joints, get_xyz_from_origin, get_axis_sign, populate_opw_parameters: which joint feeds which OPW parameter, "
+                    "layout variants, sign of an axis, joints declared in another order)"}
+    HARD += ("Additional steer for this round: make BOTH changes in " + WHERE.get(pid, "the files named above") + ". Prefer control-flow and bookkeeping "
+             "slips (a wrong variable of two similar ones, an index or flag taken from the neighbouring element, a condition tested one step too late, a branch "
+             "that returns early with a partial result) over changed constants. The breakage must be a clear violation of the property as stated, observable "
+             "through the public API.\n\n")
 print(f"""You are given a scratch git worktree of the Rust crate `rs-opw-kinematics` (analytical inverse/forward kinematics for 6-axis OPW robots, with constraints, tool/base frames, Jacobian, collisions, path planning) at {wt}. Work ONLY inside {wt}. Do not read or touch /repo or /verif. The sandbox has no network: always pass --offline to cargo (or set CARGO_NET_OFFLINE=true). Use this command for the existing test-suite (66 tests, all must pass; first build takes a few minutes):
 
     cd {wt} && cargo test --lib --offline --no-default-features --features "allow_filesystem collisions stroke_planning" 2>&1 | tail -15
